@@ -44,7 +44,10 @@ func (i *idReader) Read(p []byte) (int, error) {
 
 // script actions
 type act struct {
-	Op string `json:"op"` // start | pong | cancel | await | blocked | failsend | oksend
+	// start | pong | cancel | await | blocked | failsend | oksend |
+	// close (the connection is torn down: handleClose with an ended context; pending pings keep
+	// waiting for their own context -- not an event of the ping model, it must change nothing there)
+	Op string `json:"op"`
 	I  int    `json:"i"`  // call index (start order)
 	ID int64  `json:"id"` // ping id (start: scripted id of the call; pong: id carried)
 }
@@ -52,7 +55,7 @@ type act struct {
 type scenario struct {
 	Seed uint64 `json:"env_seed"`
 	Acts []act  `json:"acts"`
-	// loop scenario: per tick "match" | "foreign" | "none" | "late" | "dup" | "writefail" | "writeblock"
+	// loop scenario: per tick "match" | "foreign" | "none" | "late" | "dup" | "writefail" | "writeblock" | "close"
 	Loop []string `json:"loop,omitempty"`
 }
 
@@ -188,6 +191,14 @@ func runScript(sc scenario) (res result) {
 			}
 			res.Events = append(res.Events, ev{2, a.ID, 0})
 			snap()
+		case "close":
+			cctx, ccancel := context.WithCancel(context.Background())
+			ccancel()
+			if p, v := hx.Recover(func() { _ = env.Conn.VerifHandleClose(cctx) }); p {
+				viol("panic", fmt.Sprintf("handleClose panicked: %v", v))
+				res.Fail = "panic"
+				return
+			}
 		case "cancel":
 			calls[a.I].cancel()
 			calls[a.I].cancelled = true
@@ -370,9 +381,14 @@ func runLoop(sc scenario) (res result) {
 			}
 			res.Events = append(res.Events, ev{4, int64(k), 1})
 			snap()
-		default: // foreign | none | late
+		default: // foreign | none | late | close
 			if mode == "foreign" {
 				pong(id + 500)
+			}
+			if mode == "close" { // the connection is torn down while the keep-alive ping is pending
+				cctx, ccancel := context.WithCancel(context.Background())
+				ccancel()
+				_ = env.Conn.VerifHandleClose(cctx)
 			}
 			select {
 			case err := <-done:
@@ -483,6 +499,9 @@ func genScript(r *hx.Rand) scenario {
 			}
 		}
 	}
+	if r.Chance(1, 3) { // the connection goes down while pings may still be pending
+		sc.Acts = append(sc.Acts, act{Op: "close"})
+	}
 	for k := range cs {
 		if !cs[k].done {
 			sc.Acts = append(sc.Acts, act{Op: "blocked", I: k}, act{Op: "cancel", I: k}, act{Op: "await", I: k})
@@ -551,6 +570,8 @@ func main() {
 	one("script:equal-ids", S(act{Op: "start", I: 0, ID: 7}, act{Op: "start", I: 1, ID: 7}, act{Op: "pong", ID: 7}, act{Op: "await", I: 1}, act{Op: "blocked", I: 0}, act{Op: "cancel", I: 0}, act{Op: "await", I: 0}))
 	one("script:equal-ids-cancel-first", S(act{Op: "start", I: 0, ID: 7}, act{Op: "start", I: 1, ID: 7}, act{Op: "cancel", I: 0}, act{Op: "await", I: 0}, act{Op: "pong", ID: 7}, act{Op: "blocked", I: 1}, act{Op: "cancel", I: 1}, act{Op: "await", I: 1}))
 	one("script:write-fails", S(act{Op: "failsend"}, act{Op: "start", I: 0, ID: 7}, act{Op: "oksend"}, act{Op: "pong", ID: 7}, act{Op: "start", I: 1, ID: 7}, act{Op: "pong", ID: 7}, act{Op: "await", I: 1}))
+	one("script:close-while-pending", S(act{Op: "start", I: 0, ID: 7}, act{Op: "close"}, act{Op: "blocked", I: 0}, act{Op: "cancel", I: 0}, act{Op: "await", I: 0}))
+	one("script:close-two-pending", S(act{Op: "start", I: 0, ID: 7}, act{Op: "start", I: 1, ID: 9}, act{Op: "pong", ID: 9}, act{Op: "await", I: 1}, act{Op: "close"}, act{Op: "blocked", I: 0}, act{Op: "cancel", I: 0}, act{Op: "await", I: 0}))
 	for i := 0; i < c.N(60, 3000); i++ {
 		one("script:random", genScript(c.Rng))
 	}
@@ -560,10 +581,11 @@ func main() {
 	one("loop:late", scenario{Seed: 6, Loop: []string{"late"}})
 	one("loop:match-x2-then-none", scenario{Seed: 6, Loop: []string{"match", "dup", "none"}})
 	one("loop:match-only", scenario{Seed: 6, Loop: []string{"match", "match"}})
+	one("loop:close-while-ping-pending", scenario{Seed: 6, Loop: []string{"match", "close"}})
 	one("loop:writefail", scenario{Seed: 6, Loop: []string{"writefail"}})
 	one("loop:writeblock", scenario{Seed: 6, Loop: []string{"writeblock"}})
 	one("loop:match-then-writeblock", scenario{Seed: 6, Loop: []string{"match", "writeblock"}})
-	modes := []string{"match", "dup", "foreign", "none", "late", "writefail", "writeblock"}
+	modes := []string{"match", "dup", "foreign", "none", "late", "writefail", "writeblock", "close"}
 	for i := 0; i < c.N(6, 200); i++ {
 		n := c.Rng.Range(1, 3)
 		l := make([]string, n)
@@ -572,6 +594,6 @@ func main() {
 		}
 		one("loop:random", scenario{Seed: c.Rng.U64(), Loop: l})
 	}
-	c.Obs.Rule = "scripted scenarios on a real Conn: up to 3 concurrent Ping calls with scripted ping ids (equal ids included), pongs with matching / foreign / duplicated ids before the ping exists, while it waits and after it returned, caller cancellation, a failing write; keep-alive loop rounds (fake-clock ticker, 500 ms real ping timeout) answered by a matching, duplicated, foreign, late or no pong, or whose ping write fails / blocks until the deadline (half-open link). Every distinct scenario counts (all contain at least one ping)"
+	c.Obs.Rule = "scripted scenarios on a real Conn: up to 3 concurrent Ping calls with scripted ping ids (equal ids included), pongs with matching / foreign / duplicated ids before the ping exists, while it waits and after it returned, caller cancellation, a failing write, connection teardown (handleClose) while pings are pending; keep-alive loop rounds (fake-clock ticker, 500 ms real ping timeout) answered by a matching, duplicated, foreign, late or no pong, or whose ping write fails / blocks until the deadline (half-open link). Every distinct scenario counts (all contain at least one ping)"
 	c.Finish()
 }
